@@ -14,7 +14,7 @@
 (*     REJECT {"line":..,"ev":..,"why":..}                                 *)
 (* and the walk continues, so a single run lists every rejected line.      *)
 (***************************************************************************)
-EXTENDS ACBase, TLC, Json, IOUtils
+EXTENDS ACPrefilter, ACRun, TLC, Json, IOUtils
 
 Rec == ndJsonDeserialize(IOEnv.TRACE)
 Stripes == 64
@@ -71,6 +71,55 @@ WellFormed(C, E, r) ==
                  /\ r[2] <= r[3] /\ r[3] <= Len(E.hay)
                  /\ r[2] >= E.s /\ r[3] <= E.e)
 
+(* ---- prefilters (C05) ---- *)
+Drift(j, why) == PrintT("DRIFT " \o ToJson([line |-> l, call |-> j, why |-> why]))
+ToCand(r) == IF r[1] = "match" THEN <<"match", ToM(r[2])>> ELSE r
+PfSet(C) == {C.pfi.bytes[x] : x \in 1..Len(C.pfi.bytes)}
+ModelCand(C, E) ==
+    LET P == C.ctx.pats  v == C.pfi.variant IN
+    CASE v = "start" -> CandStart(PfSet(C), E.hay, E.s, E.e)
+      [] v = "rare" -> CandRare(PfSet(C), P, C.ctx.ci, E.hay, E.s, E.e)
+      [] v = "memmem" -> CandMemmem(P, E.hay, E.s, E.e)
+      [] v = "packed" -> CandPacked(P, C.ctx.mk, E.hay, E.s, E.e)
+      [] OTHER -> <<"unknown">>
+ProbeOK(C, E, j, c) ==
+    LET cand == ToCand(CRes(c)) IN
+    /\ Sound(C.ctx.pats, C.ctx.mk, C.ctx.ci, E.hay, E.s, E.e, cand)
+          \/ Reject(j, "probe", "the prefilter's answer is unsound for this span: " \o ToString(cand))
+    /\ cand = ModelCand(C, E)
+          \/ Drift(j, "prefilter candidate " \o ToString(cand) \o " differs from the model's "
+                        \o ToString(ModelCand(C, E)))
+(* which prefilter was built: none when a pattern is empty (required);      *)
+(* otherwise it should be one of the admissible ones (drift if not)         *)
+PfBuiltOK(E) ==
+    LET P == E.ctx.pats  v == E.pfi.variant  S == {E.pfi.bytes[x] : x \in 1..Len(E.pfi.bytes)} IN
+    /\ (~PrefilterPossible(P) => v = "none")
+          \/ Reject(0, "ctx", "a prefilter was built although a pattern is empty")
+    /\ (CASE v = "none" -> TRUE
+           [] v = "start" -> AdmStart(S, P, E.ctx.ci)
+           [] v = "rare" -> AdmRare(S, P, E.ctx.ci)
+           [] v = "memmem" -> AdmMemmem(P, E.ctx.ci)
+           [] v = "packed" -> AdmPacked(P, E.ctx.mk, E.ctx.ci)
+           [] OTHER -> FALSE)
+          \/ Drift(0, "the prefilter that was built is not one the model considers admissible: "
+                        \o ToString(E.pfi))
+
+(* ---- bounded work (C19) ---- *)
+WorkOK(C, E, j, c) ==
+    LET x == CX(c)  w == CRes(c)
+        span == IF E.e >= E.s THEN E.e - E.s ELSE 0
+        isdfa == C.kind = "dfa" IN
+    /\ w.trans <= span
+          \/ Reject(j, "work", "more automaton transitions than bytes in the span: " \o ToString(w.trans))
+    /\ w.fails <= w.trans
+          \/ Reject(j, "work", "more failure-link traversals than transitions: " \o ToString(<<w.fails, w.trans>>))
+    /\ (isdfa => w.fails = 0)
+          \/ Reject(j, "work", "a DFA followed failure links")
+    /\ (x.api = "find" /\ "haylen" \notin DOMAIN E /\ (CAn(c) \/ ~C.ctx.pre)) =>
+          LET m == FindCost(C.ctx.pats, C.ctx.mk, C.ctx.ci, E.hay, E.s, E.e, CAn(c), CEarly(c)) IN
+          (w.trans = m[1] /\ (isdfa \/ w.fails = m[2]))
+             \/ Drift(j, "work counters " \o ToString(<<w.trans, w.fails>>) \o " differ from the model's " \o ToString(m))
+
 CallOK(C, E, j) ==
     LET c == E.calls[j]  k == CK(c) IN
     IF COut(c) # "ok"
@@ -82,6 +131,8 @@ CallOK(C, E, j) ==
            [] k = "iter" -> IterOK(C, E, c) \/ Reject(j, k, "iteration differs")
            [] k = "overlap_iter" -> OverlapIterOK(C, E, c) \/ Reject(j, k, "overlapping iteration differs")
            [] k = "overlap_step" -> OverlapStepOK(C, E, c) \/ Reject(j, k, "stepwise overlapping differs")
+           [] k = "probe" -> ProbeOK(C, E, j, c)
+           [] k = "work" -> WorkOK(C, E, j, c)
            [] k = "recipe" ->
                  LET o == FindOracle(C.ctx.pats, C.ctx.mk, E.hay, 0, Len(E.hay), C.ctx.ci, FALSE) IN
                  /\ ToM(CRes(c)[1]) = o \/ Reject(j, k, "the documented caller-written loop differs from the oracle")
@@ -90,7 +141,8 @@ CallOK(C, E, j) ==
            [] OTHER -> Reject(j, k, "unknown call")
 
 EventOK(E) ==
-    IF E.ev = "ctx" THEN E.built \/ Reject(0, "ctx", "build failed: " \o E.err)
+    IF E.ev = "ctx" THEN /\ E.built \/ Reject(0, "ctx", "build failed: " \o E.err)
+                         /\ E.built => PfBuiltOK(E)
     ELSE IF E.ev = "multi" THEN \A j \in 1..Len(E.calls) : CallOK(Rec[E.c], E, j)
     ELSE Reject(0, E.ev, "unknown event")
 
